@@ -6,8 +6,9 @@ CONSTANTS
   MaxHunks = 2
   MaxBody = 3
   Preamble = TRUE
+  MaxConf = 1
   Buf = 0
-  Fixes = {"D1", "D14"}
+  Fixes = {"D1", "D14", "D2"}
   ReplayLen = 0
 INVARIANTS RowsOnceInOrder Lag PrefixStable Boundary Replay
 PROPERTY NeverRevised
